@@ -1,4 +1,5 @@
 import OnetVerif.Model.C15
+import OnetVerif.Shapes
 /-! Property C15 — streams deliver everything in order and end cleanly whoever leaves first.
 Property theorems, negation witnesses, `_partial` variants, non-vacuity examples and the lemmas they
 need. -/
@@ -1738,5 +1739,37 @@ theorem c15_full_fixed : C15_full .fixed := by
   have := c15_client_leaves caps hcap m₀ sched hg
     ⟨hq _ rfl, hq _ rfl, hq _ rfl, hq _ rfl, hq _ rfl, hq _ rfl, fun k => hq _ rfl, fun k => ⟨hq _ rfl, hq _ rfl⟩⟩
   exact ⟨this.1, this.2.1, this.2.2.1, this.2.2.2.2.1⟩
+
+/-! ### the code regions the model stands for
+Regenerated from /repo's source on every run (`harness/cmd/astfacts` → `OnetVerif/Shapes.lean`): the
+calls that matter for synchronisation and data flow, the lock regions and (for decision logic) the
+conditions, in source order.  A re-ordering, a dropped call or a changed condition breaks these
+obligations even when no sampled input or schedule shows a difference; the check then searches for
+a failing input. -/
+theorem c15_shape_ServiceProcessor_ProcessClientStreamRequest :
+    Shapes.processor_ServiceProcessor_ProcessClientStreamRequest =
+   ["verifC15Point", "close:stopAll", "stopAllOnce.Do", "outLock.Lock", "close:outChan",
+     "outLock.Unlock", "go{", "verifC15Point", "server.Suite", "network.DefaultConstructors",
+     "protobuf.DecodeWithConstructors", "endStream", "callInterfaceFunc",
+     "close:stopServiceChan", "endStream", "inChan.Pointer", "inChan.Pointer", "outLock.Lock",
+     "outLock.Unlock", "go{", "recv:stopAll", "closing.Lock", "defer:closing.Unlock",
+     "recv:stopServiceChan", "close:stopServiceChan", "}", "go{", "defer{", "verifC15Point",
+     "outLock.Lock", "close:outChan", "outLock.Unlock", "}", "v.Interface", "protobuf.Encode",
+     "verifC15Point", "send:outChan", "recv:stopAll", "}", "close:stopAll", "stopAllOnce.Do",
+     "}"] := rfl
+
+theorem c15_shape_wsHandler_ServeHTTP :
+    Shapes.websocket_wsHandler_ServeHTTP =
+   ["defer{", "}", "u.Upgrade", "defer:ws.Close", "ws.ReadMessage",
+     "bidirectionalStreamer.IsStreaming", "s.ProcessClientRequest", "time.Now", "Now().Add",
+     "ws.SetWriteDeadline", "ws.WriteMessage", "send:clientInputs",
+     "bidirectionalStreamer.ProcessClientStreamRequest", "go{", "defer:close:clientInputs",
+     "defer:verifC15Point", "ws.ReadMessage", "close:closing", "verifC15Point",
+     "send:clientInputs", "recv:leaving", "}", "recv:closing", "recv:outChan",
+     "websocket.FormatCloseMessage", "time.Now", "Now().Add", "ws.WriteControl", "verifC15Point",
+     "close:leaving", "time.Now", "Now().Add", "ws.SetWriteDeadline", "verifC15Point",
+     "close:leaving", "ws.WriteMessage", "verifC15Point", "close:leaving", "err.Error",
+     "websocket.FormatCloseMessage", "time.Now", "Now().Add", "ws.WriteControl"] := rfl
+
 
 end C15
